@@ -60,11 +60,12 @@ def main():
             res = json.load(open(os.path.join(d, "result.json")))
         except Exception:
             pass
-        caught = {k: (v.get("exit") != 0) for k, v in res.get("checks", {}).items()}
+        caught = {k: bool(v.get("violations")) for k, v in res.get("checks", {}).items()}
         summary[s] = {"confirmed": res.get("confirm", {}).get("confirmed"), "confirm": {k: v for k, v in res.get("confirm", {}).items() if not k.endswith("tail")},
                       "caught_by": sorted(k for k, v in caught.items() if v), "missed_by": sorted(k for k, v in caught.items() if not v),
+                      "with_failing_input": sorted(k for k, v in res.get("checks", {}).items() if any(not r.get("no_input") for r in v.get("replays", []))),
                       "checks": res.get("checks", {}), "wall_s": round(time.time() - t0, 1), "tool_output_tail": p.stdout[-1500:]}
-        print("%s confirmed=%s caught_by=%s missed_by=%s (%.0fs)" % (s, summary[s]["confirmed"], summary[s]["caught_by"], summary[s]["missed_by"], time.time() - t0), flush=True)
+        print("%s confirmed=%s caught_by=%s with_input=%s missed_by=%s (%.0fs)" % (s, summary[s]["confirmed"], summary[s]["caught_by"], summary[s]["with_failing_input"], summary[s]["missed_by"], time.time() - t0), flush=True)
         json.dump(summary, open(os.path.join(out_dir, "summary.json"), "w"), indent=1)
         if res:
             json.dump(res, open(os.path.join(out_dir, s + ".result.json"), "w"), indent=1)
